@@ -1383,3 +1383,30 @@ TT("C11", "twin-helper-pred", [
 
 def intialise_temp_table_for_root_nodes(""")],
    "window predicate factored into a helper with tuple unpacking")
+M("C01", "break-recursion-lost", NUP,
+  """            update_sub_graph_node_break_points(node)
+            update_nested_node_graph_with_break_points(node.sub_graph)""",
+  """            update_sub_graph_node_break_points(node)""", "R1.6",
+  "break points of inner loops never marked")
+M("C01", "kill-recursion-cond", "walk_puml_graph/find_and_add_loop_kill_paths.py",
+  """        find_and_add_loop_kill_paths_to_sub_graph_node(subgraph_node)
+        find_and_add_loop_kill_paths_to_nested_graphs(subgraph_node.sub_graph)""",
+  """        find_and_add_loop_kill_paths_to_sub_graph_node(subgraph_node)
+        if len(subgraph_nodes) > 1:
+            find_and_add_loop_kill_paths_to_nested_graphs(subgraph_node.sub_graph)""",
+  "R1.6", "kill paths of nested loops computed only sometimes")
+M("C01", "uids-crossed", CNG,
+  """            start_uid=event.start_uid,
+            end_uid=event.end_uid,""",
+  """            start_uid=event.end_uid,
+            end_uid=event.start_uid,""", "R1.7",
+  "entry and exit uid of a loop node crossed")
+M("C01", "break-by-type", NUP,
+  "        if node.uid in sub_graph_node.break_uids:",
+  "        if node.event_type in sub_graph_node.break_uids:", "R1.7",
+  "break nodes looked up by type instead of uid")
+M("C01", "kill-args-swapped", "walk_puml_graph/find_and_add_loop_kill_paths.py",
+  """            {end_point},
+            {start_point},""",
+  """            {start_point},
+            {end_point},""", "R1.7", "end and start points swapped")
